@@ -186,17 +186,20 @@ def monitors_child(rec):
         if mode == 'same':
             return np.tile(nrng.integers(0, 4, size=(1, m)).astype(float), (n, 1))
         return np.round(nrng.normal(size=(n, m)), 3)
+    EPS_FOR = dict(ties=[1e-8, 1e-6, 1e-3, 0.25], same=[1e-8, 1e-6, 1e-3, 0.25], grid=[1e-8, 1e-6, 1e-3, 0.1], cont=[1e-8, 1e-6, 1e-4])
     # ---- ensrank against the oracle
     child.progress('ensrank'); ev = 0; bad = 0
     for _ in range(250 if quick else 2500):
         n = rng.choice([2, 3, 4, 6, 10]); m = rng.choice([1, 2, 3, 5, 8]); mode = rng.choice(['ties', 'grid', 'same', 'cont'])
         sim = ensembles(n, m, mode)
         fmat = np.zeros((n, n)); ranks = np.zeros(n)
-        ierr = cs.ensrank(1e-6, sim, fmat, ranks); ev += 1
+        # tie tolerance: any value below the spacing of the data (values are exactly tied or separated by more than the tolerance)
+        eps = rng.choice(EPS_FOR[mode])
+        ierr = cs.ensrank(eps, sim, fmat, ranks); ev += 1
         F, R = wm_oracle(sim)
         iu = np.triu_indices(n, 1)
         if ierr != 0 or not np.allclose(fmat[iu], F[iu], atol=1e-12) or not np.allclose(ranks, R, atol=1e-12):
-            bad += 1; _fail(rec, 'ensrank', 'ranks: fmat / ranks differ from the pairwise mid-rank comparison of Weigel and Mason', sim=sim.tolist(), observed=dict(fmat=fmat.tolist(), ranks=ranks.tolist()), expected=dict(fmat=F.tolist(), ranks=R.tolist()))
+            bad += 1; _fail(rec, 'ensrank', 'ranks: fmat / ranks differ from the pairwise mid-rank comparison of Weigel and Mason', sim=sim.tolist(), eps=eps, observed=dict(fmat=fmat.tolist(), ranks=ranks.tolist()), expected=dict(fmat=F.tolist(), ranks=R.tolist()))
     rec.bounded_clause('ensrank: fmat and ranks equal the pairwise mid-rank comparison of Weigel and Mason (2011)', '2..10 forecasts x 1..8 members, heavy ties / lattice / identical ensembles / continuous', ev, ev, False, bad)
     # ---- dscore
     child.progress('dscore'); ev = 0; bad = 0
@@ -206,6 +209,15 @@ def monitors_child(rec):
         sim = ensembles(n, m, mode)
         obs = nrng.permutation(n).astype(float) if rng.random() < 0.7 else nrng.integers(0, 3, size=n).astype(float)
         d = M.dscore(obs, sim); ev += 1
+        # the score does not depend on the tie tolerance as long as it stays below the spacing of the data; it equals the rank correlation form of the oracle ranks
+        eps = rng.choice(EPS_FOR[mode])
+        de = M.dscore(obs, sim, eps)
+        if m > 1 and np.ptp(wm_oracle(sim)[1]) > 0:
+            ref = (np.corrcoef(np.argsort(np.argsort(obs)), wm_oracle(sim)[1])[0, 1] + 1) / 2
+        else:
+            ref = de
+        if abs(de - d) > 1e-12 or abs(de - ref) > 1e-12:
+            bad += 1; _fail(rec, 'dscore', 'tolerance: the score changes with the tie tolerance (%r at 1e-6, %r at %r) or differs from the Weigel-Mason ranks (%r)' % (d, de, eps, ref), obs=obs.tolist(), sim=sim.tolist(), eps=eps); continue
         if not (0 <= d <= 1):
             bad += 1; _fail(rec, 'dscore', 'range: the score is not in [0, 1]', obs=obs.tolist(), sim=sim.tolist(), observed=repr(d)); continue
         for nm, f in maps:
